@@ -564,7 +564,12 @@ def step (s : St) (op : List String) (impl : Option (List String)) : St × Strin
   -- ------------------------------------------------------------ StatTools
   | "fdr" =>
     (s, showRes showV (VecTools.computeFdr v0), onVec impl "fdr_spec" fun g =>
-      if noNaN v0 then [("fdr_spec", decide (IsFdr v0 g))] else [])
+      if noNaN v0 && g.length == v0.length then
+        -- the ranking the implementation used: by decreasing p-value, ties by increasing answer
+        let σ := ((List.zip v0 g).zipIdx.mergeSort (fun a b =>
+          a.1.1 > b.1.1 || (a.1.1 == b.1.1 && a.1.2 ≤ b.1.2))).map (·.2)
+        [("fdr_spec", decide (IsFdrVia v0 g σ))]
+      else [("fdr_spec", !(noNaN v0))])
   | _ => bad
 where
   log2 : Float := Float.log 2.0
